@@ -344,11 +344,22 @@ def raise_for(outcome, kind):
         raise KeyboardInterrupt
 
 
-def make_mixer_class(outcome):
+UNSET = "<unset>"
+BACKEND_FAULT = [False]  # scripted backends' playback.get_time_position raises while set
+
+
+def make_mixer_class(outcome, volume_reply=UNSET, mute_reply=UNSET):
     from mopidy.softwaremixer.mixer import SoftwareMixer
 
     class ScriptedSoftwareMixer(SoftwareMixer):
         name = "software"
+
+        # a mixer (think: hardware mixer) answering whatever it likes
+        def get_volume(self):
+            return super().get_volume() if volume_reply == UNSET else volume_reply
+
+        def get_mute(self):
+            return super().get_mute() if mute_reply == UNSET else mute_reply
 
         def __init__(self, config):
             raise_for(outcome, "mixer")
@@ -422,6 +433,12 @@ def make_backend_class(i, outcome, with_providers=False):
         def save(self, playlist):
             return None
 
+    class FaultyPlayback(backend_mod.PlaybackProvider):
+        def get_time_position(self):
+            if BACKEND_FAULT[0]:
+                raise RuntimeError("scripted backend fault: device gone")
+            return super().get_time_position()
+
     class ScriptedBackend(pykka.ThreadingActor, backend_mod.Backend):
         uri_schemes = [scheme]  # noqa: RUF012
 
@@ -431,7 +448,7 @@ def make_backend_class(i, outcome, with_providers=False):
             self.audio = audio
             if with_providers:
                 self.library = Library(backend=self)
-                self.playback = backend_mod.PlaybackProvider(audio=audio, backend=self)
+                self.playback = FaultyPlayback(audio=audio, backend=self)
                 self.playlists = Playlists(backend=self)
 
         def on_start(self):
@@ -548,7 +565,23 @@ def run_shutdown_case(case, wd, data_dir=None, providers=False, work=None):
     loop_log = []
     try:
         hm = bool(case["hm"])
-        mixer_cls = make_mixer_class(case["om"])
+        mixer_cls = make_mixer_class(case["om"], case.get("mixer_volume", UNSET), case.get("mixer_mute", UNSET))
+        BACKEND_FAULT[0] = False
+        if case.get("play"):
+            providers = True
+
+            def work(core):  # noqa: F811 - play a track so that one is current at shutdown
+                core.tracklist.add(uris=["s0:t0", "s0:t1"]).get(timeout=20)
+                core.playback.play().get(timeout=20)
+                t_end = time.monotonic() + 3
+                while time.monotonic() < t_end:
+                    while gst_deliver_one():  # bus messages: stream start makes the track current
+                        pass
+                    if core.playback.get_current_tl_track().get(timeout=20) is not None:
+                        break
+                    time.sleep(0.002)
+                loop_log.append("playing" if core.playback.get_current_tl_track().get(timeout=20) else "not-playing")
+                BACKEND_FAULT[0] = bool(case.get("backend_fault"))
         backends = [make_backend_class(i, o, with_providers=providers) for i, o in enumerate(case["obs"])]
         frontends = [make_frontend_class(i, o, sessions=int(case.get("sessions", 0)) if i == 0 else 0)
                      for i, o in enumerate(case["ofs"])]
@@ -717,6 +750,7 @@ def run_shutdown_case(case, wd, data_dir=None, providers=False, work=None):
             "died": sorted(s if isinstance(s, int) else -1 for s in DIED),
             "saves": len(saves),
             "state_file": os.path.exists(state_file),
+            "state_digest": session_digest(state_file) if os.path.exists(state_file) else None,
             "left": left,
             "respawns_unused": SESSION_BUDGET[0],
             "threads_left": live,
@@ -729,6 +763,9 @@ def run_shutdown_case(case, wd, data_dir=None, providers=False, work=None):
         except Exception:  # noqa: BLE001
             pass
         SESSION_BUDGET[0] = 0
+        BACKEND_FAULT[0] = False
+        with WORLD.lock:
+            del WORLD.pending[:]
         if data_dir is None:
             shutil.rmtree(tmp, ignore_errors=True)
 
